@@ -272,7 +272,7 @@ class PROP(PropCheck):
         return [Case(program(g, c), meta={"grid": g, "cmds": c}, kind="corpus") for g, c in fixed]
 
     def cases(self, rng, tier, scale=1):
-        n = (400 if tier == "quick" else 6000) * scale
+        n = (400 if tier == "quick" else 5000) * scale
         out = []
         for i in range(n):
             g = self.gen_grid(rng, big=(i % 3 != 0))
